@@ -111,12 +111,35 @@ fn work(case: Val) -> Val {
     let file = opt_str(&c[3]);
     let line = c[4].l().first().map(|x| x.n() as u32);
     let target = c[5].str();
-    for kv in c[7].l() {
-        let kv = kv.l();
-        log_mdc::insert(kv[0].str(), kv[1].str());
+    // optional 10th element 1: the MDC entries are inserted BY THE MESSAGE, while it is being formatted (a Display impl
+    // that tags the request it belongs to); the thread's MDC is empty when encode is entered.  The line's "mdc" member
+    // is written after the message, so it holds them.
+    let late = c.len() > 9 && c[9].n() == 1;
+    let kvs: Vec<(String, String)> = c[7].l().iter().map(|kv| (kv.l()[0].str(), kv.l()[1].str())).collect();
+    if !late {
+        for (k, v) in &kvs {
+            log_mdc::insert(k.clone(), v.clone());
+        }
+    }
+    struct Late<'a> {
+        text: &'a str,
+        kvs: &'a [(String, String)],
+        on: bool,
+    }
+    impl std::fmt::Display for Late<'_> {
+        fn fmt(&self, f: &mut std::fmt::Formatter) -> std::fmt::Result {
+            if self.on {
+                for (k, v) in self.kvs {
+                    log_mdc::insert(k.clone(), v.clone());
+                }
+            }
+            f.write_str(self.text)
+        }
     }
     let mut order = vec![];
-    log_mdc::iter(|k, _| order.push(Val::S(k.as_bytes().to_vec())));
+    if !late {
+        log_mdc::iter(|k, _| order.push(Val::S(k.as_bytes().to_vec())));
+    }
     let tid = thread_id::get();
     // What a case does not say and must not matter (changes with every case of the process): the encoder is
     // JsonEncoder::new() or the one a configuration document's `kind: json` yields (JsonEncoderDeserializer);
@@ -149,15 +172,20 @@ fn work(case: Val) -> Val {
         .module_path(module.as_deref())
         .file(file.as_deref())
         .line(line);
+    let first = Late { text: &pieces[0], kvs: &kvs, on: late };
     let r = match pieces.len() {
-        1 => enc.encode(&mut w, &b.args(format_args!("{}", pieces[0])).build()),
-        2 => enc.encode(&mut w, &b.args(format_args!("{}{}", pieces[0], pieces[1])).build()),
+        1 => enc.encode(&mut w, &b.args(format_args!("{}", first)).build()),
+        2 => enc.encode(&mut w, &b.args(format_args!("{}{}", first, pieces[1])).build()),
         3 => enc.encode(
             &mut w,
-            &b.args(format_args!("{}{}{}", pieces[0], pieces[1], pieces[2])).build(),
+            &b.args(format_args!("{}{}{}", first, pieces[1], pieces[2])).build(),
         ),
         n => panic!("unsupported number of message pieces {}", n),
     };
+    if late {
+        // the iteration order of the map the message filled (read after the encode: the map is this thread's)
+        log_mdc::iter(|k, _| order.push(Val::S(k.as_bytes().to_vec())));
+    }
     // A sink that refuses ONE write call: when encode nevertheless returns Ok, what it wrote must still be
     // the one complete line (records with MDC entries and a short message only: ~100 write calls).
     let mut broken = 0u128;
